@@ -1,0 +1,15 @@
+//go:build verif
+
+package processors
+
+// VerifShape reports the shape of a processor for the verification trace:
+// its kind, the number of pending lines and whether its output buffer is empty.
+func VerifShape(p IProcessor) (string, int, bool) {
+	switch v := p.(type) {
+	case *Assemble:
+		return "assemble", len(v.proc.lines), v.output.Len() == 0
+	case *CmdLine:
+		return "cmdline", len(v.proc.lines), true
+	}
+	return "", 0, true
+}
